@@ -79,6 +79,30 @@ theorem bad_annotation_rejected (hasInit : Bool) (gf : GoField) (idS reqS tyS : 
     resolveField hasInit gf (idS :: reqS :: tyS :: r) = none :=
   resolveField_bad_type hasInit gf idS reqS tyS r h
 
+/-- … in particular text after a complete type (D19) and a keyword that is only *part* of the kind's
+    keyword (D18): an accepted annotation is consumed to its end, and a scalar is named by its whole
+    keyword, by nothing, or by the Go type's own name -/
+theorem annotation_consumed_to_the_end (vt : GoTy) (d : List Char) (t : Ty) (h : parseType vt d = some t) :
+    ∃ r sp, doParseType vt (!d.isEmpty) d true = some (t, r) ∧ readToken r true = some ([], sp) := by
+  unfold parseType at h
+  split at h
+  · cases h
+  · rename_i t' r hp
+    split at h
+    · rename_i sp hr
+      simp only [Option.some.injEq] at h
+      subst h
+      exact ⟨r, sp, hp, hr⟩
+    · cases h
+
+theorem keyword_is_a_whole_word (tag : DTag) (tv : List Char) :
+    isKeyword tag tv = (keywordsOf tag).contains tv := rfl
+
+example : isKeyword .i64 "i6".toList = false ∧ isKeyword .i64 "6".toList = false ∧
+    isKeyword .strct "t".toList = false ∧ isKeyword .strct "str".toList = false ∧
+    isKeyword .i8 "byte".toList = true ∧ isKeyword .i8 "i8".toList = true ∧
+    isKeyword .i8 "i8 byte".toList = false := by decide
+
 /-- unknown options; `nocopy` on a non-string; `nocopy` twice -/
 theorem bad_option_rejected (hasInit : Bool) (gf : GoField) (idS reqS tyS o : List Char)
     (r : List (List Char)) (h : o ≠ "nocopy".toList) :
